@@ -168,11 +168,34 @@ fn build_ext(comb: &str, kids: Vec<Child>) -> PollFn {
         _ => panic!("no two-argument method for {comb}"),
     }
 }
-/// nests: the leaves are split into two halves, each half feeds an inner combinator, the two inner combinators feed the outer one.
-/// There is no model for these: the leaf-level monitors (wake-ups, concurrency) are evaluated on the trace.
+/// the same nests over ARRAYS (outer [_; 2], inner [_; K]): the slice algorithms again, the array impls of the crate (cont `nesta`, n = 2K)
 #[cfg(any(feature = "fc-std", feature = "fc-alloc"))]
-fn build_nest(comb: &str, kids: Vec<Child>) -> PollFn {
+macro_rules! nest_arrays { ($k:literal, $comb:expr, $a:expr, $b:expr) => {{
+    fn fa(v: Vec<Child>) -> [Fut; $k] { let v: Vec<Fut> = v.into_iter().map(Fut).collect(); v.try_into().ok().unwrap() }
+    fn sa(v: Vec<Child>) -> [Str; $k] { let v: Vec<Str> = v.into_iter().map(Str).collect(); v.try_into().ok().unwrap() }
+    let (a, b) = ($a, $b);
+    let flat = |o: [[Val; $k]; 2]| list("R", &o.into_iter().flatten().map(take).collect::<Vec<u64>>());
+    match $comb {
+        "nest_jj" => fut_fn([fa(a).join(), fa(b).join()].join(), flat),
+        "nest_jr" => fut_fn([fa(a).race(), fa(b).race()].join(), |o| list("R", &o.into_vals())),
+        "nest_rj" => fut_fn([fa(a).join(), fa(b).join()].race(), |o| list("R", &o.into_vals())),
+        "nest_jt" => fut_fn(futures_concurrency::future::FutureExt::join(fa(a).join(), fa(b).join()), move |(x, y): ([Val; $k], [Val; $k])| flat([x, y])),
+        "nest_mm" => str_fn([sa(a).merge(), sa(b).merge()].merge(), |o| list("S", &o.into_vals())),
+        "nest_cm" => str_fn([sa(a).merge(), sa(b).merge()].chain(), |o| list("S", &o.into_vals())),
+        "nest_zm" => str_fn([sa(a).merge(), sa(b).merge()].zip(), |o| list("S", &o.into_vals())),
+        "nest_gj" => { let mut g = FutureGroup::new(); g.insert(fa(a).join()); g.insert(fa(b).join()); str_fn(g, |o: [Val; $k]| list("S", &o.into_vals())) }
+        "nest_gm" => { let mut g = StreamGroup::new(); g.insert(sa(a).merge()); g.insert(sa(b).merge()); str_fn(g, |o: Val| list("S", &o.into_vals())) }
+        _ => panic!("nest {}", $comb),
+    }
+}}; }
+/// nests: the leaves are split into two halves, each half feeds an inner combinator, the two inner combinators feed the outer one.
+/// The leaf-level monitors (wake-ups, concurrency) are evaluated on the trace; the composed model (coq/Model/Nest.v) predicts it.
+#[cfg(any(feature = "fc-std", feature = "fc-alloc"))]
+fn build_nest(comb: &str, cont: &str, kids: Vec<Child>) -> PollFn {
     let n = kids.len(); let mut a = kids; let b = a.split_off(n / 2);
+    if cont == "nesta" {
+        return match n { 2 => nest_arrays!(1, comb, a, b), 4 => nest_arrays!(2, comb, a, b), 6 => nest_arrays!(3, comb, a, b), _ => panic!("nesta n={n}") };
+    }
     fn futs(v: Vec<Child>) -> Vec<Fut> { v.into_iter().map(Fut).collect() }
     fn strs(v: Vec<Child>) -> Vec<Str> { v.into_iter().map(Str).collect() }
     let flat = |o: Vec<Vec<Val>>| list("R", &o.into_iter().flatten().map(take).collect::<Vec<u64>>());
@@ -191,7 +214,7 @@ fn build_nest(comb: &str, kids: Vec<Child>) -> PollFn {
 }
 fn build(comb: &str, cont: &str, kids: Vec<Child>) -> PollFn {
     #[cfg(any(feature = "fc-std", feature = "fc-alloc"))]
-    if comb.starts_with("nest_") { return build_nest(comb, kids); }
+    if comb.starts_with("nest_") { return build_nest(comb, cont, kids); }
     if cont == "ext" && !comb.starts_with("wait_") { return build_ext(comb, kids); }
     match comb {
         "join" => { let v: Vec<Fut> = kids.into_iter().map(Fut).collect(); conts!(zero cont, v, join, fut_fn, |o| list("R", &o.into_vals())) }
